@@ -289,6 +289,35 @@ func (r *c12Runner) Do(op []string) string {
 			total += len(g)
 		}
 		return itoa(total) + " " + ints(m[0]) + " " + ints(m[1])
+	case "groupbyzero":
+		// GroupBy over float64 ELEMENTS among which +0.0 and -0.0 occur (equal under ==, yet different values) with
+		// a key function that tells them apart (the sign bit): <elements under key false> <elements under key true>;
+		// a multiple of 3 stands for +0.0 when even and for -0.0 when odd; -0.0 is shown as -1000000
+		in := parseInts(op[1])
+		fl := make([]float64, len(in))
+		for i, x := range in {
+			switch {
+			case x%3 == 0 && x%2 == 0:
+				fl[i] = 0
+			case x%3 == 0:
+				fl[i] = math.Copysign(0, -1)
+			default:
+				fl[i] = float64(x)
+			}
+		}
+		m := gogu.GroupBy(fl, func(v float64) bool { return math.Signbit(v) })
+		show := func(g []float64) string {
+			out := make([]int, len(g))
+			for i, v := range g {
+				if v == 0 && math.Signbit(v) {
+					out[i] = -1000000
+				} else {
+					out[i] = int(v)
+				}
+			}
+			return ints(out)
+		}
+		return show(m[false]) + " " + show(m[true])
 	case "zip":
 		m := c12Matrix(op[1])
 		z := gogu.Zip(m...)
@@ -390,7 +419,7 @@ func c12SliceOps(s []int, maxChunk, maxDrop int, seeds []int) []string {
 	for _, f := range c12Keys {
 		ops = append(ops, "groupby "+f+" "+ss, "map "+f+" "+ss)
 	}
-	ops = append(ops, "groupbynan "+ss)
+	ops = append(ops, "groupbynan "+ss, "groupbyzero "+ss)
 	ops = append(ops, "foreach "+ss, "foreachright "+ss, "reverse "+ss)
 	for i, r := range c12Reds {
 		ops = append(ops, "reduce "+r+" "+ss+" "+itoa(i-1))
